@@ -493,7 +493,10 @@ pub fn oracle(c: &CurveCase, cur: &Result<Curve, String>, out: &mut Out) -> Opti
                 let diff = (natural - l).abs();
                 if diff > 0.0 && diff < f64::EPSILON && cv.dist().to_bits() == natural.to_bits() {
                     out.count("oracle:D9");
-                    out.fail("D9", &d, &format!("requested {:e}, natural {:e}, distance {:e}", l, natural, cv.dist()));
+                    // Out keeps at most 200 failures: a known class must not crowd out others
+                    if out.dist.get("oracle:D9").copied().unwrap_or(0) <= 25 {
+                        out.fail("D9", &d, &format!("requested {:e}, natural {:e}, distance {:e}", l, natural, cv.dist()));
+                    }
                 } else {
                     out.fail("", &d, &format!("distance {:e} is not the requested {:e} (natural {:e})", cv.dist(), l, natural));
                 }
@@ -541,7 +544,9 @@ pub fn oracle(c: &CurveCase, cur: &Result<Curve, String>, out: &mut Out) -> Opti
                 // no direction: only reachable when the lengths carry a surplus
                 if d11(path) && osu_catmull {
                     out.count("oracle:D11");
-                    out.fail("D11", &d, &format!("cut lands in the zero-length segment {} -> end point ({}, {})", k, p.x, p.y));
+                    if out.dist.get("oracle:D11").copied().unwrap_or(0) <= 25 {
+                        out.fail("D11", &d, &format!("cut lands in the zero-length segment {} -> end point ({}, {})", k, p.x, p.y));
+                    }
                 } else {
                     out.fail("", &d, "cut lands in a zero-length segment");
                 }
